@@ -37,6 +37,17 @@ type Diff struct {
 	B      string   `json:"b"`
 	Src    string   `json:"src"`
 	Prefix []string `json:"prefix,omitempty"`
+	Detail string   `json:"detail,omitempty"` // first "error: ..." line of an internal error
+}
+
+// errorLine returns the first line of the message that starts with "error: ".
+func errorLine(s string) string {
+	for _, l := range strings.Split(s, "\n") {
+		if strings.HasPrefix(l, "error: ") {
+			return trunc(l, 300)
+		}
+	}
+	return ""
 }
 
 func trunc(s string, n int) string {
@@ -191,7 +202,7 @@ func main() {
 				if host.IsInternal(r.Class) {
 					atomic.AddInt64(&ninternal, 1)
 					out.Write(Diff{Hist: id, Step: si, Kind: "internal", Field: "class", Engine: eng, A: r.Class,
-						B: trunc(fmt.Sprint(r.Err), 600), Src: e.Src, Prefix: prefix})
+						B: trunc(fmt.Sprint(r.Err), 600), Src: e.Src, Prefix: prefix, Detail: errorLine(fmt.Sprint(r.Err))})
 				}
 			}
 			atomic.AddInt64(&nsteps, 1)
